@@ -364,6 +364,7 @@ func init() {
 		"(*sync.RWMutex).RUnlock": func(it *Interp, a []Value) Value { it.mutexUnlock(a[0].(PtrV), false); return nil },
 		"(*sync.WaitGroup).Add": func(it *Interp, a []Value) Value {
 			s := it.syncAt(a[0].(PtrV))
+			it.raceRelease(syncKey{a[0].(PtrV).Obj, a[0].(PtrV).Off})
 			s.counter += it.concretizeInt(a[1].(*sym.Term), types.Typ[types.Int], 0, 0)
 			if s.counter < 0 {
 				panic(goPanic{val: it.runtimeError("sync: negative WaitGroup counter"), msg: "sync: negative WaitGroup counter"})
@@ -372,6 +373,7 @@ func init() {
 		},
 		"(*sync.WaitGroup).Done": func(it *Interp, a []Value) Value {
 			s := it.syncAt(a[0].(PtrV))
+			it.raceRelease(syncKey{a[0].(PtrV).Obj, a[0].(PtrV).Off})
 			s.counter--
 			if s.counter < 0 {
 				panic(goPanic{val: it.runtimeError("sync: negative WaitGroup counter"), msg: "sync: negative WaitGroup counter"})
@@ -380,9 +382,18 @@ func init() {
 		},
 		"(*sync.WaitGroup).Wait": func(it *Interp, a []Value) Value {
 			s := it.syncAt(a[0].(PtrV))
+			rk := syncKey{a[0].(PtrV).Obj, a[0].(PtrV).Off}
 			if s.counter > 0 {
-				it.block(it.cur, "WaitGroup.Wait", func() bool { return s.counter <= 0 })
+				it.block(it.cur, "WaitGroup.Wait", func() bool {
+					if s.counter <= 0 {
+						it.raceAcquire(rk)
+						return true
+					}
+					return false
+				})
+				return nil
 			}
+			it.raceAcquire(rk)
 			return nil
 		},
 		"(*sync.Pool).Get": poolGet,
@@ -605,6 +616,7 @@ func (it *Interp) poolAt(p PtrV) *poolState {
 func poolGet(it *Interp, a []Value) Value {
 	p := a[0].(PtrV)
 	s := it.poolAt(p)
+	it.raceSync(syncKey{p.Obj, p.Off})
 	if n := len(s.items); n > 0 {
 		v := s.items[n-1]
 		s.items = s.items[:n-1]
@@ -630,6 +642,7 @@ func poolPut(it *Interp, a []Value) Value {
 		return nil
 	}
 	s := it.poolAt(a[0].(PtrV))
+	it.raceSync(syncKey{a[0].(PtrV).Obj, a[0].(PtrV).Off})
 	s.items = append(s.items, a[1])
 	return nil
 }
@@ -884,6 +897,7 @@ func (it *Interp) mkTimer(d Value, period int64, fn *FuncV) *timerState {
 		t.ch.timer = t
 	}
 	it.addTimer(t)
+	it.raceArm(t)
 	return t
 }
 
@@ -941,6 +955,7 @@ func timerReset(it *Interp, a []Value) Value {
 	d := it.concretizeInt(a[1].(*sym.Term), types.Typ[types.Int64], 0, 0)
 	t.when = it.nowNs() + d
 	t.active = true
+	it.raceArm(t)
 	if t.period > 0 {
 		t.period = d
 	}
